@@ -189,6 +189,22 @@ RLConnectFail ==
   /\ UNCHANGED <<submitted, taskQ, tok, retryQ, subEst, nrbe, tg, gen, dialled>>
   /\ UNCHANGED bvars /\ UNCHANGED <<txc, txok, relok, lastPub, firstMax, doneReq, lost, viol>>
 
+\* the broker accepted the CONNECT (its session state is updated) but the CONNACK was lost with the
+\* connection: for the client this is a failed Connect
+RLConnectLost(sp) ==
+  /\ rl.pc = "connack" /\ bc[rl.g].topen /\ faults < MaxFaults
+  /\ sp = bever        \* assumption A6: a session is lost only on a connection whose CONNACK reaches the client
+  /\ faults' = faults + 1
+  /\ bsubs' = IF sp THEN bsubs ELSE EmptyFn
+  /\ binfl' = IF sp THEN binfl ELSE {}
+  /\ bever' = TRUE
+  /\ bc' = [bc EXCEPT ![rl.g].connecting = FALSE, ![rl.g].topen = FALSE, ![rl.g].done = TRUE]
+  /\ connErr' = [connErr EXCEPT ![rl.g] = "err"]
+  /\ rl' = [rl EXCEPT !.pc = "dial"]
+  /\ lastw' = [p |-> "CONNECT", g |-> rl.g, r |-> 0, dup |-> FALSE, ok |-> TRUE]
+  /\ UNCHANGED <<submitted, taskQ, tok, retryQ, subEst, nrbe, tg, gen, dialled, dcnt>>
+  /\ UNCHANGED <<txc, txok, relok, lastPub, firstMax, doneReq, lost, viol>>
+
 \* after a successful Connect: Resubscribe (if due), Retry (reconnclient.go:103-107)
 RLPost ==
   /\ rl.pc = "post"
@@ -503,7 +519,7 @@ Outcomes == {"ok", "closed", "cutBefore", "cutAfter", "dropReq", "dropAck"}
 Next ==
   \/ Submit
   \/ RLDialOk \/ RLDialFail \/ RLSetClient \/ RLConnectInit
-  \/ (\E sp \in BOOLEAN : RLConnectOk(sp)) \/ RLConnectFail \/ RLPost \/ RLDown
+  \/ (\E sp \in BOOLEAN : RLConnectOk(sp) \/ RLConnectLost(sp)) \/ RLConnectFail \/ RLPost \/ RLDown
   \/ (\E g \in Gen : PeerClose(g) \/ ServeExit(g))
   \/ TGWait \/ TGTop \/ TGIdle \/ TGAfter \/ TGRunStart \/ TGRetryNext \/ TGResubNext \/ TGBegin
   \/ (\E o \in Outcomes : TGWrite(o)) \/ TGWaitClosed \/ TGTimeout
